@@ -378,7 +378,11 @@ fn message_loop(comms: &mut Comms) -> Result<(), ()> {
 /// error, like a communication failure.
 fn exec_command(command: Command, comms: &mut Comms, context: &mut Option<DoerContext>) -> Result<bool, String> {
     #[cfg(rjrssync_verif)]
-    if let Some(e) = verif_hooks::inject(&command) { comms.send_response(Response::Error(e))?; return Ok(true); }
+    if let Some(e) = verif_hooks::inject(&command) {
+        // an injected failure of a deletion is a failed deletion
+        if let (Command::DeleteFile { path } | Command::DeleteFolder { path } | Command::DeleteSymlink { path, .. }, Some(c)) = (&command, context.as_mut()) { c.failed_deletes.push(path.clone()); }
+        comms.send_response(Response::Error(e))?; return Ok(true);
+    }
     // Refuse to touch anything at or inside a path that we failed to delete earlier
     let command_path = match &command {
         Command::CreateOrUpdateFile { path, .. } | Command::CreateSymlink { path, .. } | Command::CreateFolder { path } |
